@@ -750,7 +750,7 @@ int sim_main(int argc, char** argv, std::vector<Engine*> engines)
 	std::vector<double> metric_max(32, 0.0);
 	std::vector<uint8_t> states(MAX_STATES / 8, 0);
 	std::map<std::string, int> shrunk_per_class;
-	uint64_t total_ops = 0, total_events = 0, det_reruns = 0, det_mismatch = 0, nviol = 0, executed = 0, ambient_errno = 0, ambient_fpflags = 0, early_calls = 0, dirty_stack = 0, heap_perturbed = 0, thread_ops = 0, thread_switches = 0;
+	uint64_t total_ops = 0, total_events = 0, det_reruns = 0, det_mismatch = 0, nviol = 0, executed = 0, ambient_errno = 0, ambient_fpflags = 0, early_calls = 0, dirty_stack = 0, heap_perturbed = 0, thread_ops = 0, thread_switches = 0, late_calls = 0;
 	int samples_emitted = 0;
 	Shared snap;
 	for(long i = first + worker; i < first + nruns; i += nworkers)
@@ -769,6 +769,7 @@ int sim_main(int argc, char** argv, std::vector<Engine*> engines)
 		heap_perturbed += snap.heap_perturbed;
 		thread_ops += snap.thread_ops;
 		thread_switches += snap.thread_switches;
+		late_calls += snap.late_calls;
 		for(int k = 0; k < MAX_PROBES; k++)
 		{
 			probe_sum[k] += snap.probes[k];
@@ -863,7 +864,7 @@ int sim_main(int argc, char** argv, std::vector<Engine*> engines)
 			sj += (first_state ? "" : ",") + std::to_string(id);
 			first_state = false;
 		}
-	printf("{\"t\":\"sum\",\"worker\":%ld,\"executed\":%llu,\"ops\":%llu,\"events\":%llu,\"violations\":%llu,\"det_reruns\":%llu,\"det_mismatches\":%llu,\"ambient_errno\":%llu,\"ambient_fpflags\":%llu,\"early_calls\":%llu,\"dirty_stack\":%llu,\"heap_perturbed\":%llu,\"thread_ops\":%llu,\"thread_switches\":%llu,\"probes\":{%s},\"metrics\":{%s},\"states\":[%s]}\n", worker, (unsigned long long) executed, (unsigned long long) total_ops, (unsigned long long) total_events, (unsigned long long) nviol, (unsigned long long) det_reruns, (unsigned long long) det_mismatch, (unsigned long long) ambient_errno, (unsigned long long) ambient_fpflags, (unsigned long long) early_calls, (unsigned long long) dirty_stack, (unsigned long long) heap_perturbed, (unsigned long long) thread_ops, (unsigned long long) thread_switches, pj.c_str(), mj.c_str(), sj.c_str());
+	printf("{\"t\":\"sum\",\"worker\":%ld,\"executed\":%llu,\"ops\":%llu,\"events\":%llu,\"violations\":%llu,\"det_reruns\":%llu,\"det_mismatches\":%llu,\"ambient_errno\":%llu,\"ambient_fpflags\":%llu,\"early_calls\":%llu,\"dirty_stack\":%llu,\"heap_perturbed\":%llu,\"thread_ops\":%llu,\"thread_switches\":%llu,\"late_calls\":%llu,\"probes\":{%s},\"metrics\":{%s},\"states\":[%s]}\n", worker, (unsigned long long) executed, (unsigned long long) total_ops, (unsigned long long) total_events, (unsigned long long) nviol, (unsigned long long) det_reruns, (unsigned long long) det_mismatch, (unsigned long long) ambient_errno, (unsigned long long) ambient_fpflags, (unsigned long long) early_calls, (unsigned long long) dirty_stack, (unsigned long long) heap_perturbed, (unsigned long long) thread_ops, (unsigned long long) thread_switches, (unsigned long long) late_calls, pj.c_str(), mj.c_str(), sj.c_str());
 	return det_mismatch ? 2 : 0;
 }
 
